@@ -575,4 +575,270 @@ theorem blocks_cases (S : List Nat) (b : Nat) (hb : 0 < b)
     rw [hla] at hle
     simp at hle
 
+
+theorem meta_zero (S : List Nat) (b : Nat) (hS : ∀ d ∈ S, d < b)
+    (hla : (blocksMetadata b S).largeAxes = []) :
+    blocksMetadata b S = ⟨S, 1, b, S, [], [], 0⟩ := by
+  simp only [blocksMetadata] at hla ⊢
+  rw [hla]
+  simp [small_map S b hS]
+
+theorem meta_one (A C : List Nat) (n b : Nat) (hb : 0 < b) (hA : ∀ d ∈ A, d < b) (hC : ∀ d ∈ C, d < b)
+    (hn : 0 < n) (hla : (blocksMetadata b (A ++ (n * b) :: C)).largeAxes = [A.length]) :
+    blocksMetadata b (A ++ (n * b) :: C) = ⟨A ++ b :: C, n, b, A ++ (n * b) :: C, [A.length], [n], A.length⟩ := by
+  simp only [blocksMetadata] at hla ⊢
+  rw [hla]
+  have hmin : min (n * b) b = b := Nat.min_eq_right (Nat.le_mul_of_pos_left b hn)
+  simp [small_map A b hA, small_map C b hC, getD_at_len, Nat.mul_div_cancel _ hb, hmin]
+
+theorem meta_two (A M C : List Nat) (lB rB b : Nat) (hb : 0 < b) (hA : ∀ d ∈ A, d < b) (hM : ∀ d ∈ M, d < b)
+    (hC : ∀ d ∈ C, d < b) (hl : 0 < lB) (hr : 0 < rB)
+    (hla : (blocksMetadata b (A ++ (lB * b) :: (M ++ (rB * b) :: C))).largeAxes =
+      [A.length, A.length + 1 + M.length]) :
+    blocksMetadata b (A ++ (lB * b) :: (M ++ (rB * b) :: C)) =
+      ⟨A ++ b :: (M ++ b :: C), lB * rB, b, A ++ (lB * b) :: (M ++ (rB * b) :: C),
+        [A.length, A.length + 1 + M.length], [lB, rB], A.length⟩ := by
+  simp only [blocksMetadata] at hla ⊢
+  rw [hla]
+  have hminl : min (lB * b) b = b := Nat.min_eq_right (Nat.le_mul_of_pos_left b hl)
+  have hminr : min (rB * b) b = b := Nat.min_eq_right (Nat.le_mul_of_pos_left b hr)
+  have g2 : (A ++ (lB * b) :: (M ++ (rB * b) :: C)).getD (A.length + 1 + M.length) 0 = rB * b := by
+    have e : A ++ (lB * b) :: (M ++ (rB * b) :: C) = (A ++ (lB * b) :: M) ++ (rB * b) :: C := by simp
+    have l : A.length + 1 + M.length = (A ++ (lB * b) :: M).length := by simp; omega
+    rw [e, l, getD_at_len]
+  simp only [List.map_cons, List.map_nil, getD_at_len, g2, Nat.mul_div_cancel _ hb, List.map_append,
+    small_map A b hA, small_map M b hM, small_map C b hC, hminl, hminr, prod_cons, prod_nil, Nat.mul_one,
+    List.headD_cons]
+
+
+theorem seg_take (A C : List Nat) (x : Nat) : (A ++ x :: C).take A.length = A := by simp
+
+theorem seg_drop (A C : List Nat) (x : Nat) : (A ++ x :: C).drop (A.length + 1) = C := by
+  rw [show A ++ x :: C = (A ++ [x]) ++ C by simp, List.drop_left' (by simp)]
+
+theorem seg_mid (A M C : List Nat) (x y : Nat) :
+    ((A ++ x :: (M ++ y :: C)).drop (A.length + 1)).take (A.length + 1 + M.length - A.length - 1) = M := by
+  rw [seg_drop]
+  have : A.length + 1 + M.length - A.length - 1 = M.length := by omega
+  rw [this]; simp
+
+theorem seg_mid' (a : Nat) (M C : List Nat) (y : Nat) :
+    (M ++ y :: C).take (a + 1 + M.length - a - 1) = M := by
+  have : a + 1 + M.length - a - 1 = M.length := by omega
+  rw [this]; simp
+
+theorem seg_drop2 (A M C : List Nat) (x y : Nat) :
+    (A ++ x :: (M ++ y :: C)).drop (A.length + 1 + M.length + 1) = C := by
+  rw [show A ++ x :: (M ++ y :: C) = (A ++ x :: M ++ [y]) ++ C by simp, List.drop_left' (by simp; omega)]
+
+/-! ### `_blockify` / `_deblockify`, entry by entry, through the closed index maps -/
+
+/-- shape of the blockified array -/
+theorem blockify_shape_eq {α} (t : Tensor α) (b : Nat) (hb : 0 < b)
+    (hle : (blocksMetadata b t.shape).largeAxes.length ≤ 2)
+    (hdiv : ∀ a ∈ (blocksMetadata b t.shape).largeAxes, b ∣ t.shape.getD a 0) :
+    (blockify t (blocksMetadata b t.shape)).shape = blockedShape (blocksMetadata b t.shape) := by
+  rcases blocks_cases t.shape b hb hle hdiv with ⟨hla, hS⟩ | ⟨A, C, n, hla, hS, hA, hC, hn⟩ |
+    ⟨A, M, C, lB, rB, hla, hS, hA, hM, hC, hl, hr⟩
+  · rw [meta_zero _ b hS hla]
+    simp [blockify, blockedShape, Tensor.reshape, insertAt]
+  · rw [hS] at hla ⊢
+    rw [meta_one A C n b hb hA hC hn hla]
+    simp only [blockify, blockedShape, Tensor.reshape, insertAt, hS, seg_take, seg_drop]
+    simp
+  · rw [hS] at hla ⊢
+    rw [meta_two A M C lB rB b hb hA hM hC hl hr hla]
+    simp only [blockify, blockifyTwo, blockedShape, Tensor.reshape, insertAt, hS, seg_take, seg_drop, seg_mid, seg_mid',
+      seg_drop2]
+    simp
+
+
+/-! ### the closed index maps on the three layouts -/
+
+theorem unblocked_zero (S : List Nat) (b x0 : Nat) (inner : List Nat) (hl : inner.length = S.length) :
+    unblockedIndex ⟨S, 1, b, S, [], [], 0⟩ (x0 :: inner) = inner := by
+  simp only [unblockedIndex, combineIndex, tfBlockOffsets, popAt, List.zip_nil_left, List.foldl_nil,
+    List.take_zero, List.nil_append, List.drop_succ_cons, List.drop_zero]
+  exact addOff_zeros _ _ (by omega)
+
+theorem blocked_zero (S : List Nat) (b : Nat) (idx : List Nat) :
+    blockedIndex ⟨S, 1, b, S, [], [], 0⟩ idx = 0 :: idx := by
+  simp [blockedIndex, innerIndexOf, blockIndexOf, insertAt, ravel]
+
+theorem unblocked_one (A C : List Nat) (n b : Nat) (xa xc : List Nat) (u w : Nat)
+    (hl : xa.length = A.length) (hlc : xc.length = C.length) :
+    unblockedIndex ⟨A ++ b :: C, n, b, A ++ (n * b) :: C, [A.length], [n], A.length⟩ (xa ++ u :: w :: xc) =
+      xa ++ (u * b + w) :: xc := by
+  simp only [unblockedIndex, combineIndex, tfBlockOffsets]
+  rw [← hl, getD_at_len, popAt_append_cons]
+  simp only [unravel, prod_nil, Nat.div_one, List.zip_cons_cons, List.zip_nil_right, List.foldl_cons,
+    List.foldl_nil]
+  have e : (A ++ (n * b) :: C).length = xa.length + 1 + xc.length := by simp [hl, hlc]; omega
+  rw [e, replicate_set, addOff_append _ _ _ _ (by simp)]
+  simp only [addOff, List.zipWith_cons_cons]
+  have h1 := addOff_zeros xa.length xa (Nat.le_refl _)
+  have h2 := addOff_zeros xc.length xc (Nat.le_refl _)
+  simp only [addOff] at h1 h2
+  rw [h1, h2]
+
+theorem blocked_one (A C : List Nat) (n b : Nat) (ip iq : List Nat) (ia : Nat) (hl : ip.length = A.length) :
+    blockedIndex ⟨A ++ b :: C, n, b, A ++ (n * b) :: C, [A.length], [n], A.length⟩ (ip ++ ia :: iq) =
+      ip ++ (ia / b) :: (ia % b) :: iq := by
+  simp only [blockedIndex, innerIndexOf, blockIndexOf, List.foldl_cons, List.foldl_nil, List.map_cons,
+    List.map_nil]
+  rw [← hl, getD_at_len, set_at_len, insertAt_append]
+  simp [ravel]
+
+theorem unblocked_two (A M C : List Nat) (lB rB b : Nat) (xp xm xq : List Nat) (blk i j : Nat)
+    (hlp : xp.length = A.length) (hlm : xm.length = M.length) (hlq : xq.length = C.length) :
+    unblockedIndex ⟨A ++ b :: (M ++ b :: C), lB * rB, b, A ++ (lB * b) :: (M ++ (rB * b) :: C),
+        [A.length, A.length + 1 + M.length], [lB, rB], A.length⟩ (xp ++ blk :: i :: (xm ++ j :: xq)) =
+      xp ++ (blk / rB * b + i) :: (xm ++ (blk % rB * b + j) :: xq) := by
+  simp only [unblockedIndex, combineIndex, tfBlockOffsets]
+  rw [← hlp, getD_at_len, popAt_append_cons]
+  simp only [unravel, prod_nil, prod_cons, Nat.mul_one, Nat.div_one, List.zip_cons_cons, List.zip_nil_right,
+    List.foldl_cons, List.foldl_nil]
+  have e : (A ++ (lB * b) :: (M ++ (rB * b) :: C)).length = xp.length + 1 + (xm.length + 1 + xq.length) := by
+    simp [hlp, hlm, hlq]; omega
+  rw [e, ← hlm, replicate_set_two, addOff_append _ _ _ _ (by simp)]
+  simp only [addOff, List.zipWith_cons_cons]
+  rw [List.zipWith_append (by simp)]
+  simp only [List.zipWith_cons_cons]
+  have h1 := addOff_zeros xp.length xp (Nat.le_refl _)
+  have h2 := addOff_zeros xm.length xm (Nat.le_refl _)
+  have h3 := addOff_zeros xq.length xq (Nat.le_refl _)
+  simp only [addOff] at h1 h2 h3
+  rw [h1, h2, h3]
+
+theorem blocked_two (A M C : List Nat) (lB rB b : Nat) (ip im iq : List Nat) (ia ic : Nat)
+    (hlp : ip.length = A.length) (hlm : im.length = M.length) :
+    blockedIndex ⟨A ++ b :: (M ++ b :: C), lB * rB, b, A ++ (lB * b) :: (M ++ (rB * b) :: C),
+        [A.length, A.length + 1 + M.length], [lB, rB], A.length⟩ (ip ++ ia :: (im ++ ic :: iq)) =
+      ip ++ (ia / b * rB + ic / b) :: (ia % b) :: (im ++ (ic % b) :: iq) := by
+  simp only [blockedIndex, innerIndexOf, blockIndexOf, List.foldl_cons, List.foldl_nil, List.map_cons,
+    List.map_nil]
+  have g2 : (ip ++ ia :: (im ++ ic :: iq)).getD (A.length + 1 + M.length) 0 = ic := by
+    have e : ip ++ ia :: (im ++ ic :: iq) = (ip ++ ia :: im) ++ ic :: iq := by simp
+    have l : A.length + 1 + M.length = (ip ++ ia :: im).length := by simp [hlp, hlm]; omega
+    rw [e, l, getD_at_len]
+  rw [g2, ← hlp, getD_at_len, set_at_len]
+  have s2 : (ip ++ (ia % b) :: (im ++ ic :: iq)).set (ip.length + 1 + M.length) (ic % b) =
+      ip ++ (ia % b) :: (im ++ (ic % b) :: iq) := by
+    have e : ip ++ (ia % b) :: (im ++ ic :: iq) = (ip ++ (ia % b) :: im) ++ ic :: iq := by simp
+    have l : ip.length + 1 + M.length = (ip ++ (ia % b) :: im).length := by simp [hlm]; omega
+    rw [e, l, set_at_len]; simp
+  rw [s2, insertAt_append]
+  simp [ravel]
+
+
+/-- **`_blockify`, entry by entry**: the entry at index `x` of the blockified array is the parameter entry at
+`unblockedIndex x` (block offsets added on the large axes), which is in bounds. -/
+theorem blockify_get_eq {α} (t : Tensor α) (b : Nat) (hb : 0 < b)
+    (hle : (blocksMetadata b t.shape).largeAxes.length ≤ 2)
+    (hdiv : ∀ a ∈ (blocksMetadata b t.shape).largeAxes, b ∣ t.shape.getD a 0)
+    (x : List Nat) (hx : inBounds (blockedShape (blocksMetadata b t.shape)) x) :
+    (blockify t (blocksMetadata b t.shape)).get x = t.get (unblockedIndex (blocksMetadata b t.shape) x) ∧
+    inBounds t.shape (unblockedIndex (blocksMetadata b t.shape) x) := by
+  rcases blocks_cases t.shape b hb hle hdiv with ⟨hla, hS⟩ | ⟨A, C, n, hla, hS, hA, hC, hn⟩ |
+    ⟨A, M, C, lB, rB, hla, hS, hA, hM, hC, hl, hr⟩
+  · rw [meta_zero _ b hS hla] at hx ⊢
+    simp only [blockedShape, insertAt, List.take_zero, List.drop_zero, List.nil_append] at hx
+    match x, hx with
+    | x0 :: inner, hx =>
+      simp only [inBounds] at hx
+      have h0 : x0 = 0 := by omega
+      subst h0
+      rw [unblocked_zero _ _ _ _ (inBounds_length hx.2)]
+      have hbf : blockify t ⟨t.shape, 1, b, t.shape, [], [], 0⟩ = t.reshape (1 :: t.shape) := by
+        simp [blockify, insertAt]
+      rw [hbf]
+      exact ⟨blockifyZero_get t inner hx.2, hx.2⟩
+  · have hm : blocksMetadata b t.shape =
+        ⟨A ++ b :: C, n, b, A ++ (n * b) :: C, [A.length], [n], A.length⟩ := by
+      rw [hS] at hla ⊢; exact meta_one A C n b hb hA hC hn hla
+    rw [hm] at hx ⊢
+    simp only [blockedShape] at hx
+    rw [insertAt_append] at hx
+    obtain ⟨xa, rest, rfl, hl, hxa, hrest⟩ := inBounds_append_split A (n :: b :: C) x hx
+    match rest, hrest with
+    | u :: w :: xc, hrest =>
+      simp only [inBounds] at hrest
+      rw [unblocked_one A C n b xa xc u w hl (inBounds_length hrest.2.2)]
+      have hbf : blockify t ⟨A ++ b :: C, n, b, A ++ (n * b) :: C, [A.length], [n], A.length⟩ =
+          t.reshape (A ++ n :: b :: C) := by
+        simp only [blockify, hS, seg_take, seg_drop]; simp
+      rw [hbf]
+      exact blockifyOne_get t A C n b hS xa xc u w hxa hrest.2.2 hrest.1 hrest.2.1
+  · have hm : blocksMetadata b t.shape =
+        ⟨A ++ b :: (M ++ b :: C), lB * rB, b, A ++ (lB * b) :: (M ++ (rB * b) :: C),
+          [A.length, A.length + 1 + M.length], [lB, rB], A.length⟩ := by
+      rw [hS] at hla ⊢; exact meta_two A M C lB rB b hb hA hM hC hl hr hla
+    rw [hm] at hx ⊢
+    simp only [blockedShape] at hx
+    rw [insertAt_append] at hx
+    obtain ⟨xp, rest, rfl, hlp, hxp, hrest⟩ := inBounds_append_split A _ x hx
+    match rest, hrest with
+    | blk :: i :: rest2, hrest =>
+      simp only [inBounds] at hrest
+      obtain ⟨xm, rest3, rfl, hlm, hxm, hrest3⟩ := inBounds_append_split M _ rest2 hrest.2.2
+      match rest3, hrest3 with
+      | j :: xq, hrest3 =>
+        simp only [inBounds] at hrest3
+        rw [unblocked_two A M C lB rB b xp xm xq blk i j hlp hlm (inBounds_length hrest3.2)]
+        have hbf : blockify t ⟨A ++ b :: (M ++ b :: C), lB * rB, b, A ++ (lB * b) :: (M ++ (rB * b) :: C),
+            [A.length, A.length + 1 + M.length], [lB, rB], A.length⟩ =
+            blockifyTwo t A M C lB rB b (lB * rB) := by
+          simp only [blockify, hS, seg_take, seg_drop, seg_mid, seg_mid', seg_drop2]; simp
+        rw [hbf]
+        exact blockifyTwo_get t A M C lB rB b hS xp xm xq blk i j hxp hxm hrest3.2 hrest.1 hrest.2.1 hrest3.1
+
+/-- **`_deblockify`, entry by entry**, for ANY array `X` of the blockified shape: the parameter entry at `idx`
+is read from `X` at `blockedIndex idx` (= the block number inserted at the blocks axis of the index inside the
+block), which is in bounds. -/
+theorem deblockify_get_eq {α} (S : List Nat) (b : Nat) (hb : 0 < b)
+    (hle : (blocksMetadata b S).largeAxes.length ≤ 2)
+    (hdiv : ∀ a ∈ (blocksMetadata b S).largeAxes, b ∣ S.getD a 0)
+    (X : Tensor α) (hX : X.shape = blockedShape (blocksMetadata b S))
+    (idx : List Nat) (hi : inBounds S idx) :
+    (deblockify X (blocksMetadata b S)).get idx = X.get (blockedIndex (blocksMetadata b S) idx) ∧
+    inBounds X.shape (blockedIndex (blocksMetadata b S) idx) := by
+  rcases blocks_cases S b hb hle hdiv with ⟨hla, hS⟩ | ⟨A, C, n, hla, rfl, hA, hC, hn⟩ |
+    ⟨A, M, C, lB, rB, hla, rfl, hA, hM, hC, hl, hr⟩
+  · rw [meta_zero _ b hS hla] at hX ⊢
+    simp only [blockedShape, insertAt, List.take_zero, List.drop_zero, List.nil_append] at hX
+    rw [blocked_zero]
+    have hdf : deblockify X ⟨S, 1, b, S, [], [], 0⟩ = X.reshape S := by simp [deblockify]
+    rw [hdf, hX]
+    exact ⟨deblockifyZero_get X S idx hX hi, Nat.one_pos, hi⟩
+  · rw [meta_one A C n b hb hA hC hn hla] at hX ⊢
+    simp only [blockedShape] at hX
+    rw [insertAt_append] at hX
+    obtain ⟨ip, rest, rfl, hlp, hip, hrest⟩ := inBounds_append_split A _ idx hi
+    match rest, hrest with
+    | ia :: iq, hrest =>
+      simp only [inBounds] at hrest
+      rw [blocked_one A C n b ip iq ia hlp]
+      have hdf : deblockify X ⟨A ++ b :: C, n, b, A ++ (n * b) :: C, [A.length], [n], A.length⟩ =
+          X.reshape (A ++ (n * b) :: C) := by simp [deblockify]
+      rw [hdf]
+      exact deblockifyOne_get X A C n b hX ip iq ia hip hrest.2 hrest.1
+  · rw [meta_two A M C lB rB b hb hA hM hC hl hr hla] at hX ⊢
+    simp only [blockedShape] at hX
+    rw [insertAt_append] at hX
+    obtain ⟨ip, rest, rfl, hlp, hip, hrest⟩ := inBounds_append_split A _ idx hi
+    match rest, hrest with
+    | ia :: rest2, hrest =>
+      simp only [inBounds] at hrest
+      obtain ⟨im, rest3, rfl, hlm, him, hrest3⟩ := inBounds_append_split M _ rest2 hrest.2
+      match rest3, hrest3 with
+      | ic :: iq, hrest3 =>
+        simp only [inBounds] at hrest3
+        rw [blocked_two A M C lB rB b ip im iq ia ic hlp hlm]
+        have hdf : deblockify X ⟨A ++ b :: (M ++ b :: C), lB * rB, b, A ++ (lB * b) :: (M ++ (rB * b) :: C),
+            [A.length, A.length + 1 + M.length], [lB, rB], A.length⟩ =
+            deblockifyTwo X A.length (A.length + 1 + M.length) [lB, rB]
+              (A ++ (lB * b) :: (M ++ (rB * b) :: C)) := by simp [deblockify]
+        rw [hdf]
+        exact deblockifyTwo_get X A M C lB rB b _ hX rfl ip im iq ia ic hip him hrest3.2 hrest.1 hrest3.1
+
 end PrecondVerif.Shapes
